@@ -443,7 +443,7 @@ Proof.
     assert (Qw : quiet (if s_parked s then [OWake sid] else [])).
     { destruct (s_parked s); [|apply quiet_nil]. split; [|reflexivity].
       intros k len [X|[]]. discriminate. }
-    destruct (o_closed o && qe).
+    destruct (o_closed o && qe && (s_buf s =? 0)).
     { destruct vs; [|exact I]. split; [exact V0|exact Qw]. }
     apply add_outs_shuffle; [exact Qw|].
     apply (shuffle_view st (put st (set_parked s false)) _ V0).
